@@ -211,6 +211,49 @@ def srun (s : Spec) : List Op → List Out × Spec
     let rs := srun r.2 ops
     (r.1 :: rs.1, rs.2)
 
+/-! ### dot/state/transaction.go: TransactionState = the ready queue × the pool of future transactions
+
+The pool is `map[common.Hash]*ValidTransaction`; the model keeps hash ↦ priority.  Status
+notifications and telemetry are not modelled. -/
+
+structure TS where
+  q : State
+  pool : List (Nat × Nat)
+
+def TS.init : TS := { q := State.init, pool := [] }
+
+inductive TSOp where
+  | addPool (h p : Nat)   -- AddToPool
+  | unpool (h : Nat)      -- RemoveExtrinsicFromPool
+  | rm (h : Nat)          -- RemoveExtrinsic: pool AND queue
+  | push (h p : Nat) | pop | peek
+  | exist (h : Nat)       -- in the pool or in the queue
+  | pending               -- queue (slice order) then pool (sorted by hash)
+  | pendingPool
+deriving DecidableEq, Repr
+
+def poolDel (m : List (Nat × Nat)) (h : Nat) : List (Nat × Nat) := m.filter (·.1 != h)
+
+def poolKeys (m : List (Nat × Nat)) : List Nat := (m.map (·.1)).mergeSort (· ≤ ·)
+
+def tsStep (ts : TS) : TSOp → Out × TS
+  | .addPool h p => (.ok, { ts with pool := (h, p) :: poolDel ts.pool h })
+  | .unpool h => (.ok, { ts with pool := poolDel ts.pool h })
+  | .rm h => let r := removeExtrinsic ts.q h; (r.1, { q := r.2, pool := poolDel ts.pool h })
+  | .push h p => let r := push ts.q h p; (r.1, { ts with q := r.2 })
+  | .pop => let r := pop ts.q; (r.1, { ts with q := r.2 })
+  | .peek => (peek ts.q, ts)
+  | .exist h => (.bool ((ts.pool.lookup h).isSome || (ts.q.txs.lookup h).isSome), ts)
+  | .pending => (.list (ts.q.pq.toList.map (·.hash) ++ poolKeys ts.pool), ts)
+  | .pendingPool => (.list (poolKeys ts.pool), ts)
+
+def tsRun (ts : TS) : List TSOp → List Out × TS
+  | [] => ([], ts)
+  | op :: ops =>
+    let r := tsStep ts op
+    let rs := tsRun r.2 ops
+    (r.1 :: rs.1, rs.2)
+
 /-! ### Lock tables (regenerated from the sources by the harness and compared) -/
 
 /-- lib/transaction/priority_queue.go, type PriorityQueue (embedded sync.Mutex; guarded: pq,
